@@ -779,8 +779,8 @@ func (obj *DenseReal64MatrixJointIterator) Index() (int, int) {
   return obj.i, obj.j
 }
 func (obj *DenseReal64MatrixJointIterator) Ok() bool {
-  return !(obj.s1 == nil || obj.s1.GetFloat64() == float64(0)) ||
-         !(obj.s2 == nil || obj.s2.GetFloat64() == float64(0))
+  return !(obj.s1 == nil || isNullScalar(obj.s1)) ||
+         !(obj.s2 == nil || isNullScalar(obj.s2))
 }
 func (obj *DenseReal64MatrixJointIterator) Next() {
 next:
